@@ -123,10 +123,10 @@ def replay_refuted(result, build):
 def canaries(tier):
     js = jobs(tier)
     out = []
-    for j in js[:4]:
+    for j in [x for x in js if x.lang != "py"][:3] + [x for x in js if x.lang == "py"][:2]:
         out.append(vacuity_canary(j))
     for j in js:
-        if any("shape(" in r or "extent(" in r for r in j.contract.requires):
+        if j.lang != "py" and any("shape(" in r or "extent(" in r for r in j.contract.requires):
             out.append(bounds_canary(j))
             break
     return out
